@@ -515,7 +515,8 @@ def paths(src=None, dst=None, dst_nets=None, block=None):
                 if dst_net not in curr_path:
                     if dst_net.op == '@':  # dests will be the read ports
                         for read_net in dst_net.op_param[1].readport_nets:
-                            dfs(read_net.dests[0], curr_path + [dst_net, read_net])
+                            if read_net not in curr_path:
+                                dfs(read_net.dests[0], curr_path + [dst_net, read_net])
                     else:
                         dfs(dst_net.dests[0], curr_path + [dst_net])
         dfs(src, [])
